@@ -47,6 +47,18 @@ Definition present_allb (s : fs) (p : path) : bool :=
   is_some (svol s p) && is_some (sdur s p) &&
   forallb (fun e => negb (path_eqb (fst e) p) || is_some (snd e)) (spend s).
 
+(** the name is bound, the DURABLE binding is the very same inode, and no
+    directory operation on it is pending: after a power failure the name can
+    only resolve to that inode.  A rename over an existing durable entry is a
+    pending directory operation exactly like a rename creating the entry: until
+    the directory is flushed the OLD file may reappear, so the replacement must
+    not be acknowledged. *)
+Definition settledb (s : fs) (p : path) : bool :=
+  match svol s p, sdur s p with
+  | Some a, Some b => N.eqb a b && forallb (fun e => negb (path_eqb (fst e) p)) (spend s)
+  | _, _ => false
+  end.
+
 (** [q] supersedes [p]: another final LTX name whose TXID range contains that
     of [p], in the same tree or in the replica (the replica supersedes local
     copies). *)
@@ -66,7 +78,7 @@ Definition R_CREAT_FINAL : N := 1.     (* create / truncate-open of a final name
 Definition R_WRITE_PUBLISHED : N := 2. (* write or truncate reaching a published inode *)
 Definition R_RENAME_UNSYNCED : N := 3. (* rename to a final name of an inode with unsynced data *)
 Definition R_RENAME_SOURCE : N := 4.   (* rename whose source is not a bound staging name *)
-Definition R_ACK_NOT_DURABLE : N := 5. (* ack of a name whose directory entry / data is not durable *)
+Definition R_ACK_NOT_DURABLE : N := 5. (* ack of a name whose directory entry (new OR replaced) / data is not durable *)
 Definition R_UNLINK_UNSUPERSEDED : N := 6.
 Definition R_ACK_NOT_FINAL : N := 7.
 Definition R_OPEN_FINAL : N := 8.      (* open for writing of a strict final name *)
@@ -124,7 +136,7 @@ Definition guard (m : mstate) (c : syscall) : N :=
   | Rmdir d => if dir_dead m d then 0 else R_DIR_REPLACED_LIVE
   | Ack p =>
       if negb (finalb p) then R_ACK_NOT_FINAL
-      else if present_allb s p &&
+      else if settledb s p &&
               match svol s p with
               | Some ino => negb (idirty (sino s ino))
               | None => false
